@@ -68,6 +68,25 @@ int main(int argc, char **argv) {
         else if (f.died()) violation(key, "process died: " + fate_str(f) + " " + f.text.substr(0, 200));
         eval(1); nontrivial(1);
     }
+    // histories: the answer for lambda2 must not depend on an earlier request lambda1 in the same process (all ordered pairs/triples of a boundary alphabet)
+    {
+        const long AL[] = {1, 80, 81, 128};
+        for (long l1 : AL) for (long l2 : AL) for (long l3 : AL) {
+            std::string key = fmt("history/%ld,%ld,%ld", l1, l2, l3);
+            if (!take(key)) continue;
+            current(key);
+            Fate f = forked([&] {
+                long seq[3] = {l1, l2, l3};
+                for (int q = 0; q < 3; q++) { TFheGateBootstrappingParameterSet *p = new_default_gate_bootstrapping_parameters((int32_t)seq[q]);
+                    std::string e = check_set(p, seq[q] <= 80 ? DOC80 : DOC128); if (!e.empty()) { violation(key, fmt("request %d (lambda=%ld) after earlier requests: ", q + 1, seq[q]) + e); break; }
+                    if (q != 1) delete_gate_bootstrapping_parameters(p); /* one set stays alive while the next is requested */ }
+                outcome(mix(l1 * 1000 + l2, l3));
+            }, 20);
+            if (f.died()) violation(key, "process died: " + fate_str(f) + " " + f.text.substr(0, 200));
+            eval(1); nontrivial(1);
+        }
+    }
+    sample("history/80,128,81: three requests in one process, each answer checked field by field");
     sample("lambda=80 -> 80-bit set (n=500, 2.44e-5, N=1024, k=1, 7.18e-9, l=2, Bgbit=10, t=8, basebit=2), every field + derived fields + margins");
     sample("lambda=81 -> 128-bit set (n=630, 2^-15, N=1024, 2^-25, l=3, Bgbit=7, t=8, basebit=2)"); sample("lambda=0, -5, 129, 300, INT32_MIN, INT32_MAX -> SIGABRT");
     return finish();
